@@ -15,10 +15,14 @@ MCVersions == {"v1", "v2", "v3"}
 MCValid == [v \in MCVersions |-> CASE v = "v1" -> {"good", "other"}
                                    [] v = "v2" -> {"newpw", "other"}
                                    [] v = "v3" -> {"other"}]
+MCMTimesNewer == {"newer"}
+MCMTimesAll   == {"newer", "older", "equal"}
 MCSameConcat == {"good", "shift1", "shift2", "emptyuser", "emptypw"}
 
 GenAttempt(c) == /\ Attempt(c)
-                 /\ PrintT(ToJson([events |-> hist', verdicts |-> verdicts']))
-GenNext == (\E c \in Creds : GenAttempt(c)) \/ (\E v \in Versions : Reload(v))
+                 /\ PrintT(ToJson([events |-> hist',
+                                   \* per attempt: the verdicts the contents that may be in force prescribe
+                                   allowed |-> [k \in DOMAIN verdicts' |-> AllowedFor(hist', k)]]))
+GenNext == (\E c \in Creds : GenAttempt(c)) \/ (\E v \in Versions, mt \in MTimes : Reload(v, mt))
 GenSpec == Init /\ [][GenNext]_vars
 =============================================================================
